@@ -21,7 +21,7 @@ import (
 func init() {
 	core.Register(&core.Monitor{
 		ID: "C15",
-		Rule: "valid (schema, document) pairs from the typed generators; for each operation a variables map is built per variable (a conforming value / explicit null where nullable / omitted where the variable is nullable or has a default) and passed through VariableValues; " +
+		Rule: "valid (schema, document) pairs from the typed generators (one in four with a twin of an operation that shares all its fragments and gives defaults to variables the original leaves without); for each operation a variables map is built per variable (a conforming value / explicit null where nullable / omitted where the variable is nullable or has a default) and passed through VariableValues; " +
 			"then Field.ArgumentMap and Directive.ArgumentMap are called for EVERY field and directive of the operation, of the fragments it reaches, and of its variable definitions. Oracle: an independent evaluator over the model " +
 			"(literal: ints->int64, floats->float64, strings/enums->string, booleans, null->nil, lists and objects recursively with variables substituted; else the supplied variable; else, through the coerced map, the variable's default; else the argument's default; else absent); maps compared with reflect.DeepEqual (nil and empty lists identified). A panic is a violation. " +
 			"distinct = (value-source, literal-shape) classes of resolved arguments; non-trivial = argument maps with at least one entry",
@@ -34,7 +34,7 @@ func init() {
 		Check:           c15Check,
 		DistinctClasses: []string{"source-class"},
 		MinEvaluations:  func(tier string) int64 { return 2000 },
-		RequiredCounts:  []string{"argument_maps_checked", "source:literal", "source:variable", "source:argument-default", "source:variable-default", "source:nested-variable", "source:explicit-null", "source:absent"},
+		RequiredCounts:  []string{"argument_maps_checked", "twin_operation_documents", "source:literal", "source:variable", "source:argument-default", "source:variable-default", "source:nested-variable", "source:explicit-null", "source:absent"},
 	})
 }
 
@@ -53,6 +53,9 @@ func c15Run(x *core.Ctx) {
 			if len(doc.Defs) == 0 {
 				continue
 			}
+			if j%4 == 1 && dgen.TwinOperation(r, g, doc) {
+				x.Count("twin_operation_documents")
+			}
 			// supply modes per (operation, variable): v = value, n = explicit null, o = omitted
 			var modes []string
 			vars := map[string]interface{}{}
@@ -65,7 +68,7 @@ func c15Run(x *core.Ctx) {
 					switch k := r.Intn(4); {
 					case k == 0 && !v.Type.NonNull:
 						mode = "n"
-					case k == 1 && (!v.Type.NonNull || v.Default != nil):
+					case (k == 1 || (k == 2 && j%4 == 1)) && (!v.Type.NonNull || v.Default != nil):
 						mode = "o"
 					}
 					modes = append(modes, d.Name+"."+v.Name+"="+mode)
@@ -133,12 +136,16 @@ type c15Eval struct {
 	x       *core.Ctx
 	vars    map[string]interface{}
 	varDefs map[string]*model.VarDef
+	// foreign is only set to NAME a mismatch, never to judge: the defaults that another operation of the document
+	// declares for variables of the same name, applied to nested uses that have no value in this operation
+	foreign map[string]*model.Value
+	quiet   bool
 }
 
 func (e *c15Eval) eval(v *model.Value, nested bool) interface{} {
 	switch v.Kind {
 	case model.VVar:
-		if nested {
+		if nested && !e.quiet {
 			e.x.Count("source:nested-variable")
 		}
 		if val, ok := e.vars[v.Raw]; ok {
@@ -146,6 +153,9 @@ func (e *c15Eval) eval(v *model.Value, nested bool) interface{} {
 		}
 		if vd := e.varDefs[v.Raw]; vd != nil && vd.Default != nil {
 			return e.eval(vd.Default, true)
+		}
+		if fd := e.foreign[v.Raw]; fd != nil && nested {
+			return e.eval(fd, true)
 		}
 		return nil
 	case model.VInt:
@@ -193,6 +203,34 @@ func valueShape(v *model.Value) string {
 		return "object"
 	}
 	return v.Kind.String()
+}
+
+// argMapQuiet is argMap without the evidence counters (used to name a mismatch).
+func (e *c15Eval) argMapQuiet(args []model.Arg, defs []*model.ArgDef) map[string]interface{} {
+	out := map[string]interface{}{}
+	for _, d := range defs {
+		var written *model.Value
+		for _, a := range args {
+			if a.Name == d.Name {
+				written = a.Value
+				break
+			}
+		}
+		switch {
+		case written != nil && written.Kind == model.VVar:
+			if val, ok := e.vars[written.Raw]; ok {
+				out[d.Name] = val
+				continue
+			}
+		case written != nil:
+			out[d.Name] = e.eval(written, false)
+			continue
+		}
+		if d.Default != nil {
+			out[d.Name] = e.eval(d.Default, false)
+		}
+	}
+	return out
 }
 
 // argMap computes the expected argument map for written arguments against argument definitions.
@@ -413,6 +451,23 @@ func c15Check(x *core.Ctx, c *core.Case) {
 			}
 			if !reflect.DeepEqual(normalise(got), normalise(want)) {
 				reason := "value-differs"
+				// is the difference explained by a nested variable without a value in this operation taking the default
+				// that ANOTHER operation declares for a variable of that name?
+				for oj, other := range mdoc.Defs {
+					if other.IsFragment || oj == oi {
+						continue
+					}
+					e2 := &c15Eval{x: x, vars: refVars, varDefs: e.varDefs, foreign: map[string]*model.Value{}, quiet: true}
+					for vi := range other.Vars {
+						if other.Vars[vi].Default != nil {
+							e2.foreign[other.Vars[vi].Name] = other.Vars[vi].Default
+						}
+					}
+					if len(e2.foreign) > 0 && reflect.DeepEqual(normalise(got), normalise(e2.argMapQuiet(args, defs))) {
+						x.Violate("nested-variable-takes-default-of-another-operation", where+": "+showMap(got)+" while running operation "+mop.Name, showMap(want))
+						return
+					}
+				}
 				for k := range want {
 					if _, ok := got[k]; !ok {
 						reason = "missing-key"
